@@ -404,7 +404,10 @@ Lemma rti_restores e s v p s1 s2 :
     (psr_privileged (s_psr s) = false -> rget (s_regs s3) 6 = rget (s_regs s) 6) /\
     (psr_privileged (s_psr s) = true -> s_saved_sp s3 = s_saved_sp s) /\
     (forall k, 0 <= k -> k <> 6 -> rget (s_regs s3) k = rget (s_regs s2) k) /\
-    s_mem s3 = s_mem s2 /\ s_instrs s3 = s_instrs s2 /\ s_devs s3 = s_devs s2 /\ s_flags s3 = s_flags s2.
+    s_mem s3 = s_mem s2 /\ s_instrs s3 = s_instrs s2 /\ s_devs s3 = s_devs s2 /\ s_flags s3 = s_flags s2 /\
+    regs8 (s_regs s3) /\ s_mcr s3 = s_mcr s2 /\ s_ireg s3 = s_ireg s2 /\ s_alloca s3 = s_alloca s2 /\
+    rget (s_regs s3) 6 = (if psr_privileged (s_psr s) then w_add (w_sub (entry_sp s) (new_init 2)) (new_init 2) else rget (s_regs s) 6) /\
+    s_saved_sp s3 = (if psr_privileged (s_psr s) then s_saved_sp s else w_add (w_sub (entry_sp s) (new_init 2)) (new_init 2)).
 Proof.
   intros Hpre Hpost [Hr6 Hssp Hr8 Hpcs Hpsrs Hpriv Hst] Hsp.
   destruct Hpre as [_ _ Hrs _ _ _ Hio1 Hio2].
@@ -627,4 +630,149 @@ Proof.
   - rewrite rget_rset_same by (try lia; unfold regs8 in Hr8; rewrite Hr8; cbn; lia). apply w_data_sub2.
   - intros Hu. rewrite Hu. reflexivity.
   - intros Hu. rewrite Hu. reflexivity.
+Qed.
+
+(* ------------------------------------------------------------------ transparency of serviced interrupts *)
+(* keyboard queue / interrupt-enable bit and display buffer of corresponding devices agree *)
+Definition same_io_dev (d d' : dev) : Prop :=
+  match d, d' with
+  | DKb q ie, DKb q' ie' => q = q' /\ ie = ie'
+  | DDs b, DDs b' => b = b'
+  | DKb _ _, _ | _, DKb _ _ | DDs _, _ | _, DDs _ => False
+  | _, _ => True
+  end.
+Definition same_io (ds ds' : list dev) : Prop := Forall2 same_io_dev ds ds'.
+Lemma same_io_dev_refl d : same_io_dev d d.
+Proof. destruct d; cbn; auto. Qed.
+Lemma same_io_refl ds : same_io ds ds.
+Proof. induction ds; constructor; [apply same_io_dev_refl|assumption]. Qed.
+Lemma same_io_dev_trans a b c : same_io_dev a b -> same_io_dev b c -> same_io_dev a c.
+Proof.
+  destruct a, b, c; cbn; try tauto; try (intros [-> ->] [-> ->]; auto); try congruence.
+Qed.
+Lemma same_io_trans a : forall b c, same_io a b -> same_io b c -> same_io a c.
+Proof.
+  induction a as [|x a IH]; intros b c H1 H2; inversion H1; subst; inversion H2; subst; constructor.
+  - eapply same_io_dev_trans; eassumption.
+  - eapply IH; eassumption.
+Qed.
+
+(* what the interrupted program can see: PC, PSR (CC, privilege, priority), all registers, the other
+   stack pointer, user memory, keyboard and display, MCR, flags, internal-register map *)
+Record peq (s s' : sim) : Prop := {
+  pq_pc : s_pc s' = s_pc s;
+  pq_psr : s_psr s' = s_psr s;
+  pq_regs : s_regs s' = s_regs s;
+  pq_ssp : s_saved_sp s' = s_saved_sp s;
+  pq_umem : forall a, in_user a = true -> mget (s_mem s') a = mget (s_mem s) a;
+  pq_io : same_io (s_devs s) (s_devs s');
+  pq_mcr : s_mcr s' = s_mcr s;
+  pq_flags : s_flags s' = s_flags s;
+  pq_ireg : s_ireg s' = s_ireg s;
+  pq_alloca : s_alloca s' = s_alloca s }.
+Lemma peq_refl s : peq s s.
+Proof. constructor; auto. apply same_io_refl. Qed.
+Lemma peq_trans a b c : peq a b -> peq b c -> peq a c.
+Proof.
+  intros [A1 A2 A3 A4 A5 A6 A7 A8 A9 A10] [B1 B2 B3 B4 B5 B6 B7 B8 B9 B10]. constructor; try congruence.
+  - intros x Hx. rewrite B5, A5 by exact Hx. reflexivity.
+  - eapply same_io_trans; eassumption.
+Qed.
+
+(* HandlerOK: the contract of a well-behaved handler, from the state s1 right after the entry to the
+   state s2 in which it executes its RTI: it is back at its entry stack pointer with the two saved
+   words intact and the saved SP untouched, still privileged and non-strict; it restored every
+   register; it did not write user memory (outside the two slots when the supervisor stack lies in
+   user space), did not touch keyboard or display, MCR, flags or internal-register mappings. *)
+Record HandlerOK (s s1 s2 : sim) : Prop := {
+  hk_ret : handler_returned s s1 s2;
+  hk_regs : forall k, 0 <= k -> k <> 6 -> rget (s_regs s2) k = rget (s_regs s1) k;
+  hk_umem : forall a, in_user a = true -> mget (s_mem s2) a = mget (s_mem s1) a;
+  hk_io : same_io (s_devs s1) (s_devs s2);
+  hk_mcr : s_mcr s2 = s_mcr s1;
+  hk_flags : s_flags s2 = s_flags s1;
+  hk_ireg : s_ireg s2 = s_ireg s1;
+  hk_alloca : s_alloca s2 = s_alloca s1 }.
+
+Lemma regs8_ext (a b : regs) : regs8 a -> regs8 b -> (forall k, 0 <= k < 8 -> rget a k = rget b k) -> a = b.
+Proof.
+  unfold regs8. intros Ha Hb H.
+  destruct a as [|a0 [|a1 [|a2 [|a3 [|a4 [|a5 [|a6 [|a7 [|]]]]]]]]]; try discriminate Ha.
+  destruct b as [|b0 [|b1 [|b2 [|b3 [|b4 [|b5 [|b6 [|b7 [|]]]]]]]]]; try discriminate Hb.
+  pose proof (H 0 ltac:(lia)) as E0. pose proof (H 1 ltac:(lia)) as E1. pose proof (H 2 ltac:(lia)) as E2.
+  pose proof (H 3 ltac:(lia)) as E3. pose proof (H 4 ltac:(lia)) as E4. pose proof (H 5 ltac:(lia)) as E5.
+  pose proof (H 6 ltac:(lia)) as E6. pose proof (H 7 ltac:(lia)) as E7.
+  change (a0 = b0) in E0. change (a1 = b1) in E1. change (a2 = b2) in E2. change (a3 = b3) in E3.
+  change (a4 = b4) in E4. change (a5 = b5) in E5. change (a6 = b6) in E6. change (a7 = b7) in E7.
+  subst. reflexivity.
+Qed.
+
+Lemma w_add_sub2_init d : 0 <= d < 65536 -> w_add (w_sub (new_init d) (new_init 2)) (new_init 2) = new_init d.
+Proof.
+  intros H. rewrite w_sub2_eq. unfold w_add, both_init. cbn [w_data w_init new_init].
+  change (2 =? 0) with false. change (ALL_BITS =? ALL_BITS) with true. cbn [andb].
+  destruct (wrap16 (d - 2) =? 0) eqn:E; change (ALL_BITS =? ALL_BITS) with true; cbn [andb]; unfold new_init.
+  - apply Z.eqb_eq in E. unfold wrap16 in E. f_equal. lia.
+  - f_equal. unfold wrap16. lia.
+Qed.
+
+(* one serviced interrupt: entry, a handler meeting its contract, RTI — the interrupted program's
+   state is back.  The stack pointer the entry pushes on must be an initialised 16-bit word (the
+   -2/+2 round trip then restores it exactly) below the user area (the two slots are then not user memory). *)
+Theorem serviced_once e s v p s1 s2 :
+  entry_pre s v p -> entry_post s s1 v p -> HandlerOK s s1 s2 ->
+  (exists d, entry_sp s = new_init d /\ 2 <= d <= 12288) ->
+  exists s3, exec e SRTI s2 = (s3, inl tt) /\ peq s s3 /\ s_instrs s3 = s_instrs s2.
+Proof.
+  intros Hpre Hpost [Hret Hregs Humem Hio Hmcr Hfl Hir Hal] (d & Hd & Hdr).
+  destruct (rti_restores e s v p s1 s2 Hpre Hpost Hret) as
+    (s3 & Hx & Hpc & Hpsr & _ & _ & _ & _ & Hoth & Hmem & Hins & Hdev & Hflg & Hr8' & Hmcr3 & Hir3 & Hal3 & Hr6 & Hssp).
+  { rewrite Hd. cbn [w_data new_init]. lia. }
+  exists s3. split; [exact Hx|]. split; [|exact Hins].
+  pose proof (ep_regs _ _ _ Hpre) as Hr8.
+  rewrite Hd, w_add_sub2_init in Hr6, Hssp by lia.
+  assert (Hsp6 : psr_privileged (s_psr s) = true -> rget (s_regs s) 6 = new_init d).
+  { intros Hu. unfold entry_sp in Hd. rewrite Hu in Hd. exact Hd. }
+  assert (Hspu : psr_privileged (s_psr s) = false -> s_saved_sp s = new_init d).
+  { intros Hu. unfold entry_sp in Hd. rewrite Hu in Hd. exact Hd. }
+  constructor.
+  - exact Hpc.
+  - exact Hpsr.
+  - apply regs8_ext; [exact Hr8'|exact Hr8|]. intros k Hk.
+    destruct (Z.eq_dec k 6) as [->|Hk6].
+    + rewrite Hr6. destruct (psr_privileged (s_psr s)) eqn:Hu; [symmetry; apply Hsp6; reflexivity|reflexivity].
+    + rewrite Hoth by lia. rewrite Hregs by lia. rewrite (eq_regs _ _ _ _ Hpost).
+      apply rget_rset_other; lia.
+  - rewrite Hssp. destruct (psr_privileged (s_psr s)) eqn:Hu; [reflexivity|symmetry; apply Hspu; reflexivity].
+  - intros a Ha. rewrite Hmem, Humem by exact Ha. rewrite (eq_mem _ _ _ _ Hpost). unfold entry_mem.
+    rewrite Hd. cbn [w_data new_init].
+    assert (12288 <= a < 65024).
+    { unfold in_user, USER_START, IO_START, sim.USER_START, sim.IO_START in Ha. apply andb_prop in Ha. destruct Ha as [A B].
+      apply Z.leb_le in A. apply Z.ltb_lt in B. lia. }
+    pose proof (wrap16_range (d - 1)). pose proof (wrap16_range (d - 2)).
+    rewrite !mget_mset_other; try lia; try reflexivity; unfold wrap16; lia.
+  - rewrite Hdev. rewrite <- (eq_devs _ _ _ _ Hpost). exact Hio.
+  - rewrite Hmcr3, Hmcr. apply (eq_mcr _ _ _ _ Hpost).
+  - rewrite Hflg, Hfl. apply (eq_flags _ _ _ _ Hpost).
+  - rewrite Hir3, Hir. apply (eq_ireg _ _ _ _ Hpost).
+  - rewrite Hal3, Hal. apply (eq_alloca _ _ _ _ Hpost).
+Qed.
+
+(* any number of interrupts serviced one after the other at the same boundary (each: taken by the
+   gate, handler meets HandlerOK, RTI) *)
+Inductive Serviced (e : env) : sim -> sim -> Prop :=
+| sv_nil s : Serviced e s s
+| sv_cons s v p s1 s2 s3 s' :
+    entry_pre s v p -> handle_interrupt e (256 + v) (Some p) s = (s1, inl tt) -> HandlerOK s s1 s2 ->
+    (exists d, entry_sp s = new_init d /\ 2 <= d <= 12288) ->
+    exec e SRTI s2 = (s3, inl tt) -> Serviced e s3 s' -> Serviced e s s'.
+
+Theorem serviced_transparent e s s' : Serviced e s s' -> peq s s'.
+Proof.
+  induction 1 as [s|s v p s1 s2 s3 s' Hpre Hent Hok Hsp Hrti Hrest IH]; [apply peq_refl|].
+  destruct (handle_interrupt_entry e s v p Hpre) as (s1' & Hent' & Hpost).
+  rewrite Hent in Hent'. inversion Hent'; subst s1'.
+  destruct (serviced_once e s v p s1 s2 Hpre Hpost Hok Hsp) as (s3' & Hrti' & Hpeq & _).
+  rewrite Hrti in Hrti'. inversion Hrti'; subst s3'.
+  eapply peq_trans; eassumption.
 Qed.
